@@ -51,17 +51,17 @@ ASSUMPTIONS = [
     "import statements whose quoted path exists on this machine are skipped (expected: they would load foreign directories)",
 ]
 SAMPLE_EVERY = 499
-CASE_WALL_S = 30
+CASE_WALL_S = 90
 HARD_INCONCLUSIVE = ("hook-missing", "monitor-not-reached")
 
 STEP_K = {"2.x": 500, "1.0": 60}  # >= 50x the maximum steps/char seen on the shipped files (9.7 with lark, 1.04)
+CO_ROOTS = ("nemoguardrails", "examples", "tests")
+FILE_NAME = "c13_case_file.co"
+_LOOP_TOOL = 4  # sys.monitoring tool id of the loop-frame analysis (vp.steps uses 3)
 
 
 def _budget(n_chars, ver):
     return STEP_K.get(ver, 500) * (n_chars + 50)
-CO_ROOTS = ("nemoguardrails", "examples", "tests")
-FILE_NAME = "c13_case_file.co"
-_LOOP_TOOL = 4  # sys.monitoring tool id of the loop-frame analysis (vp.steps uses 3)
 
 
 def shipped_files(repo=None):
@@ -181,10 +181,10 @@ def setup_worker():
         if filename != FILE_NAME:
             return real_parse(filename, content, *a, **k)
         # the case file gets its own budget, proportional to its length; whatever the loader
-        # does before/after (directory walk, imported library files) runs under LOADER_BUDGET
+        # does before/after (directory walk, imported library files) runs under _W["lib_budget"]
         _W["parse_calls"].append(False)
         steps.stop()
-        steps.start(_budget(len(content), k.get("version", "1.0")))
+        steps.start(_budget(len(content), k.get("version") or (a[1] if len(a) > 1 else "1.0")))
         try:
             r = real_parse(filename, content, *a, **k)
         finally:
@@ -345,7 +345,7 @@ def run_layout(case):
         text, ver, base, parsed = _base_for_file(case["path"])
         label = case["path"]
         if ver is None:
-            return {"verdict": "inconclusive", "reason": "expected: shipped-file-not-parseable", "detail": "%s %s" % (label, parsed), "nontrivial": False}
+            return {"verdict": "inconclusive", "reason": "shipped-file-not-parseable", "detail": "%s %s" % (label, parsed), "nontrivial": False}
     else:
         ver = case["ver"]
         text, names, toks = (g.gen_v2 if ver == "2.x" else g.gen_v1)(case["gseed"])
